@@ -32,7 +32,7 @@ class Harness:
         self.bins = {}
         self.build_s = 0.0
 
-    ACCESSORS = ["verif_acc_eps", "verif_acc_sigma", "verif_acc_dof", "verif_acc_counts"]
+    ACCESSORS = ["verif_acc_eps", "verif_acc_sigma", "verif_acc_dof", "verif_acc_counts", "verif_acc_trycalc"]
 
     def build(self, profile="dev"):
         if profile in self.bins:
@@ -189,6 +189,14 @@ def numeric_failures(doc64, prefixes, tol=1e-6):
     for ob in doc64["out"]["obligations"]:
         if not any(ob["name"].startswith(p) for p in prefixes):
             continue
+        # premises of the obligation group, evaluated on the native values: a case whose premise is false does not apply
+        def holds(g):
+            a, op, b = g
+            if not isinstance(a, (int, float)) or not isinstance(b, (int, float)):
+                return False
+            return {">": a > b, ">=": a >= b, "<": a < b, "<=": a <= b, "=": a == b, "!=": a != b}.get(op, False)
+        if not all(holds(g) for g in ob.get("given", [])):
+            continue
         vals = [abs(x) for e in ob["eqs"] for x in e[1:3] if isinstance(x, (int, float))]
         scale = max([1.0] + vals)
         if "wscale10" in str(doc64.get("cfg", "")) and ".native." not in ob["name"]:
@@ -301,7 +309,14 @@ def analyze_run(h, res, scenario, cfg, doc, prefixes, budget, replay_dir, expect
         res.undischarged.append((cfg_label, "path-feasibility", repr(v2)))
     # ---- divisors are non-zero on this path (definedness; "all values stay finite" over the reals)
     if check_div:
-        divs = [d for d in arena.divisors(ids) if arena.nodes[d][0] != "c"]
+        # only divisions performed by the code under test (cone of the left-hand sides = code outputs, and of the
+        # path condition); the specification's own case formulas divide under their own premises
+        code_roots = set(enc.ctx_roots)
+        for ob in obs:
+            for (_l, a, _b) in ob["eqs"]:
+                if a >= 0:
+                    code_roots.add(a)
+        divs = [d for d in arena.divisors(arena.cone(code_roots)) if arena.nodes[d][0] != "c"]
         variants = [[("plain", enc.base_plain((d,), assume_div=False), [f"(assert (= {arena.name(d)} 0.0))"])] for d in divs]
         verdicts = solve_many_variants(variants, budget, uf, res.stats)
         for dnode, var, v in zip(divs, variants, verdicts):
